@@ -236,8 +236,7 @@ def raw_to_converge(steps, energy):
       steps = [[step] for step in steps]  # needed when steps = [1,2,3,...]
     steps = [list(zip(*step)) for step in steps] # also can be used to revert 'steps'
   if len(energy) > 0:
-    if hasattr(energy[0], 'tolist'):
-      energy = [e.tolist() for e in energy]
+    energy = [(e.tolist() if hasattr(e, 'tolist') else e) for e in energy]
   return steps, energy
 
 def raw_to_support(steps, energy):
